@@ -4,6 +4,7 @@ import functools
 import itertools
 import multiprocessing
 import operator
+import os
 from collections import defaultdict
 
 import numpy as np
@@ -13,6 +14,10 @@ from tqdm.auto import tqdm
 
 from .accelerate import numba_jit
 from .node_time_class import LIN_GRID, LOG_GRID
+
+# verification hook (off unless TSDATE_VERIF=1 and an arrival log is installed)
+_verif_arrivals = None
+_VERIF = os.environ.get("TSDATE_VERIF", "0") == "1"
 
 
 class Likelihoods:
@@ -185,6 +190,8 @@ class Likelihoods:
                             f, self.unfixed_likelihood_cache.keys()
                         ):
                             self.unfixed_likelihood_cache[key] = pmf
+                            if _VERIF and _verif_arrivals is not None:
+                                _verif_arrivals.append(key)
                             prog_bar.update()
         else:
             for muts, span in tqdm(
